@@ -95,6 +95,16 @@ def make_jobs(chk):
             ctrl = bytes([0xc0 | (q[1] & 1)]) + e + path
             n += 1
             jobs.append(mkjob(rng, "c%d:key-above-p:m%d:%d" % (n, m, delta), b"\x51\x20" + q[0].to_bytes(32, "big"), script, ctrl))
+    # leaf scripts across the compact-size boundaries (the TapLeaf hash commits to the script WITH its length prefix)
+    for ln in (0, 1, 75, 76, 252, 253, 254, 255, 256, 257, 520, 521, 1000, 65535, 65536, 70000):
+        if ln >= 1000:     # one long push keeps the listing short (it fails at execution, after the commitment has been checked)
+            script = b"\x4e" + (ln - 6).to_bytes(4, "little") + bytes(rng.randrange(256) for _ in range(ln - 6)) + b"\x51"
+        else:
+            script = (bytes([OP["NOP"]]) * (ln - 1) + b"\x51") if ln else b""
+        for m in ((0, 2) if ln < 60000 else (1,)):
+            n += 1
+            spk, sc, ctrl = build(rng, m, ["rnd"], script=script)
+            jobs.append(mkjob(rng, "c%d:leaflen%d:m%d" % (n, ln, m), spk, sc, ctrl))
     # single-field corruptions of valid commitments
     for m in (0, 1, 2, 5):
         for rep in range(2 if quick else 40):
@@ -136,11 +146,29 @@ def make_jobs(chk):
     return jobs
 
 
+def leaf_hash_runs(chk, exe):
+    """what the interactive tool announces as the tap leaf hash, for the tapscript leaf version and for others (which it then refuses)"""
+    import ptydrv, re
+    from c09 import RecJob
+    rng = chk.rng
+    rec = []
+    for lv in (0xc0, 0xc2, 0x66, 0xfe, 0x00, 0xc4):
+        for script in (b"\x51", bytes([OP["NOP"]]) * 300 + b"\x51"):
+            spk, sc, ctrl = build(rng, rng.choice([0, 1, 3]), ["rnd"], script=script, leafver=lv)
+            j = mkjob(rng, "x", spk, sc, ctrl)
+            r = ptydrv.run_cli([exe, "--tx=" + j.txctx["tx"], "--txin=" + j.txctx["txin"]], stdin_tty=True, stdout_tty=True, timeout=10, stdin_data=b"quit\n")
+            m = re.search(r"- k\s+= ([0-9a-f]{64})\s+\(tap leaf hash\)", r["stdout"] + r["stderr"])
+            ev = {"e": "LeafShown", "leafver": lv, "script": sc.hex(), "shown": m.group(1) if m else ""}
+            rec.append((RecJob("LeafShown", ev), [ev]))
+    return rec
+
+
 def run(chk):
     chk.mc("MC_TapCommit", "MC_TapCommit.cfg")
-    chk.build()
+    chk.build(mains=("btcdeb",))
     jobs = make_jobs(chk) + c01.probes(chk)
     divs = chk.validate("Trace_Session", jobs, "c05")
+    divs += chk.validate_recorded("Trace_Calls", leaf_hash_runs(chk, chk.build_obj.exe("btcdeb")), "c05leaf", parallel=2)
     chk.classify(divs)
     return chk.finish(rule=RULE, assumptions=ASSUME)
 
